@@ -362,6 +362,9 @@ func runC03(c *explore.Ctx) {
 	c.Rule = "E2: every sequence of {publish QoS1, publish QoS2, subscriber acks oldest / newest outstanding (PUBACK, PUBREC->PUBREL, PUBCOMP), v5 PUBREC error, cut, reconnect clean0, take-over clean0} up to the depth, for subscriber variants (v5 Receive Maximum 1/2/3 vs max_inflight, v3.1.1 with max_inflight 1/2), on a fresh in-process broker; a wire monitor on the subscriber socket checks after every event: ids non-zero and distinct among outstanding PUBLISH/PUBREL, window never exceeded and never idle while messages wait, DUP=0 first, after every reconnect exactly the outstanding entries first (same id, DUP=1 or PUBREL) in order, completed ones never again, FIFO for new ones. Plus E1 on the packet-id limiter."
 	c.Trusted = []string{"vsched default schedule", "refmqtt codec"}
 	if rc := replayCase(c); rc != nil {
+		if concReplay(c, rc, "C03") {
+			return
+		}
 		c03Run(c, c03Variant{byte(rc["version"].(float64)), uint16(rc["recvmax"].(float64)), uint16(rc["max_inflight"].(float64))}, intsOf(rc["seq"]))
 		return
 	}
@@ -374,6 +377,7 @@ func runC03(c *explore.Ctx) {
 	if !c.IsWorker() {
 		c03Limiter(c)
 	}
+	concPubSubPhase(c, "C03")
 	variants := []c03Variant{{refmqtt.V5, 1, 100}, {refmqtt.V5, 2, 100}, {refmqtt.V5, 3, 2}, {refmqtt.V311, 0, 1}, {refmqtt.V311, 0, 2}}
 	if !c.Quick() {
 		variants = append(variants, c03Variant{refmqtt.V5, 3, 100}, c03Variant{refmqtt.V5, 0, 2})
